@@ -177,6 +177,8 @@ def signature(rule, scn_key, schedule, obs):
     for t in obs.timeline:
         if t[0] == "inject":
             phases.append(f"{t[1].split(':')[0]}@{t[3]}/{t[4]}/{t[5] if len(t) > 5 else '?'}")
+        elif t[0] == "cbfail":
+            phases.append(f"cbfail@{t[2]}")  # a document consumer raised on a document of this kind
     for i, k in sorted(schedule.get("faults", {}).items()):
         for li, dev, op, _a, _s in obs.ledger:
             if li == int(i):
